@@ -118,6 +118,25 @@ fn %(name)s() {
 ''' % dict(name=name, pk=lit(pk), sk=lit(sk), q=lit(q), n=lit(nonce))
 
 
+def stream_suite(tier):
+    """secretstream pull from an arbitrary state: verdict and the full MAC transcript (associated data with its padding,
+    tag block, ciphertext, lengths) - C03's pull harness, instantiated here for AD lengths across the 16-byte padding
+    boundary, because "tampering with the associated data is rejected" is a C02 statement"""
+    from props import c03
+    src = rs.prelude() + rs.load("aead.rs") + rs.load("rng.rs") + c03.BODY
+    hs = []
+    for mlen, adlen in ([(3, 21)] if tier == "quick" else [(3, 21), (0, 16), (17, 33), (1, 15)]):
+        n = "c02_stream_pull_transcript_m%d_ad%d" % (mlen, adlen)
+        src += c03.h_pull_a(n, mlen, adlen)
+        hs.append(Harness(n, unwind=max(70, mlen + 20), timeout=2400, site="secretstream_pull:transcript",
+                          desc="pull from an arbitrary 44-byte state, message %d bytes, AD %d bytes: verdict, MAC transcript (AD || pad || tag block || ciphertext || pad || lengths), post-state" % (mlen, adlen),
+                          bounds={"mlen": mlen, "adlen": adlen}))
+    s = Suite("C02", src, hs, stubs=rs.stub_names(("barrier", "fmt") + rs.MAC, extra=c03.REKEY_STUB),
+              functions=["classic::crypto_secretstream_xchacha20poly1305::{pull,rekey}", "utils::pad16"], assumptions=ASSUMPTIONS)
+    s.tag = "e1-stream"
+    return s
+
+
 def suites(tier, seed):
     rnd = random.Random(2000 + seed)
     src = rs.prelude() + rs.load("aead.rs") + rs.load("salsa.rs") + aead.USES
@@ -151,7 +170,7 @@ def suites(tier, seed):
     stubs |= set(rs.stub_names(("barrier", "fmt", "b2compress")))
     hs.append(Harness("c02_seal_nonce_binds_epk", unwind=132, timeout=1800, site="crypto_box_seal_nonce",
                       desc="sealed-box nonce = BLAKE2b-24 over all 256 bits of epk and of the recipient key (a change to any bit of the ephemeral key changes the hash input)", bounds={}))
-    return [Suite("C02", src, hs, stubs=sorted(stubs),
+    return [stream_suite(tier), Suite("C02", src, hs, stubs=sorted(stubs),
                   functions=["classic::crypto_secretbox_impl::crypto_secretbox_open_detached_inplace", "classic::crypto_secretbox::open_*", "classic::crypto_box::{open_*,seal_open,beforenm}",
                              "classic::crypto_box_impl::crypto_box_curve25519xsalsa20poly1305_beforenm", "classic::crypto_core::crypto_core_hsalsa20",
                              "classic::crypto_secretstream_xchacha20poly1305::pull"],
